@@ -284,6 +284,19 @@ class _SockShim:
 _sock_shim = _SockShim()
 
 
+class _SeededRandomModule:
+    """Stands in for the `random` MODULE inside a repository module: the module-level functions draw from one seeded generator (reproducible runs), every other
+    name (Random, SystemRandom, ...) is the real module's, so code that starts using them still runs under the harness."""
+
+    def __init__(self, seed):
+        self._r = random.Random(seed)
+
+    def __getattr__(self, name):
+        if name in ('Random', 'SystemRandom', 'seed', 'getstate', 'setstate') or not hasattr(self._r, name):
+            return getattr(random, name)
+        return getattr(self._r, name)
+
+
 class SelectSpin(BaseException):
     """The loop keeps calling select() with an argument the real select() refuses: it would spin for ever without reading a socket or running a timer."""
 
@@ -332,6 +345,22 @@ class _NetlinkSocketModule:
 
     @staticmethod
     def socket(family, kind, proto=0, *a):
+        k = W.cur.kernel
+        fault = k.socket_faults.get(len(k.requests))
+        if fault is not None and len(k.requests) % 2 == 1:
+            # every second injected failure happens where the descriptor is allocated (socket() itself, EMFILE), the others at bind(); only for the socket
+            # of a REQUEST (send_recv is on the call stack), never for the event socket the loop opens when it starts
+            import sys as _sys
+            f = _sys._getframe(1)
+            names = []
+            while f is not None and len(names) < 6:
+                names.append(f.f_code.co_name)
+                f = f.f_back
+            if 'send_recv' in names:
+                k.socket_faults.pop(len(k.requests), None)
+                if W.cur.step_faults is not None:
+                    W.cur.step_faults.append(('netlink-socket', len(k.requests), fault))
+                raise OSError(fault, 'injected failure to create the netlink socket')
         return _NlSock(W.cur.kernel, None)
 
 
@@ -467,9 +496,9 @@ def install():
 
 
 def seed_repo_randomness(seed):
-    r_ikesa.random = random.Random(seed)
-    r_xfrm.random = random.Random(seed + 1)
-    r_conf.random = random.Random(seed + 2)
+    r_ikesa.random = _SeededRandomModule(seed)
+    r_xfrm.random = _SeededRandomModule(seed + 1)
+    r_conf.random = _SeededRandomModule(seed + 2)
 
 
 # ------------------------------------------------------------------------------------------ endpoints
